@@ -24,6 +24,8 @@
 From Coq Require Import ZArith List Bool.
 From FT Require Import Base.Dict Model.Edit Model.EditExec Proofs.EditInv Proofs.EditWalk Proofs.EditGlobal Proofs.EditTrk.
 From FT Require Proofs.EditSwap.
+From FT Require Proofs.EditNodeBasic Proofs.EditBook Proofs.EditUDN Proofs.EditUAN Proofs.EditWFEdge.
+From FT Require Gen.History_gen Proofs.HistoryGen Props.C02.
 Import ListNotations.
 Open Scope Z_scope.
 
@@ -147,6 +149,48 @@ Theorem C04_step_swap : forall st n1 n2 a st', W_dict st -> W_forest st ->
   user_swap st n1 n2 = Ok a st' -> W_trk st' /\ EditTrk.trk_bounded st'.
 Proof. exact EditSwap.swap_trk. Qed.
 
+(* ---- node actions: the six graph-and-id invariants (configuration, dictionaries, forest, track ids,
+        lineage ids, lookups) are preserved together by UserDeleteNode and UserAddNode, all branches
+        (dividing parent, root, bridge; splice into a skip edge, forced cuts, fresh track id) ---- *)
+Theorem C04_step_delete_node : forall st n pxo top a st',
+  EditUDN.GWF st -> user_delete_node st n pxo top = Ok a st' -> EditUDN.GWF st'.
+Proof. exact EditUDN.udn_GWF. Qed.
+
+(* what a node deletion may relabel: lineage ids only strictly below the deleted node, track ids only
+   when the parent of the deleted node divides (the sibling then continues the parent's track) *)
+Theorem C04_frame_delete_node : forall st n pxo top a st',
+  EditUDN.GWF st -> user_delete_node st n pxo top = Ok a st' ->
+  (forall m, m <> n -> ~ EditWalk.reach st n m -> lin st' m = lin st m) /\
+  ((forall q, edge st q n -> ~ divides st q) -> forall m, m <> n -> trk st' m = trk st m).
+Proof. exact EditUDN.udn_id_frame. Qed.
+
+(* UserAddNode, for attributes inside the documented domain (integer time / track id, no
+   caller-supplied lineage id) *)
+Theorem C04_step_add_node : forall st n a px force top act st',
+  cfg_ok st -> W_dict st -> W_forest st -> W_trk st -> W_lin st -> W_book st ->
+  EditBook.rp_disjoint st -> EditUAN.attrs_ok a -> haskey KLin a = false ->
+  user_add_node st n a px force top = Ok act st' ->
+  cfg_ok st' /\ W_dict st' /\ W_forest st' /\ W_trk st' /\ W_lin st' /\ W_book st'.
+Proof. exact EditUAN.user_add_node_keeps_all. Qed.
+
+(* every state reachable by edge-level calls from a well-formed state is well formed (WF includes W_trk) *)
+Theorem C04_run_edge_calls : forall ops st,
+  forallb EditWFEdge.edge_fragment ops = true -> WF st -> WF (run st ops).
+Proof. exact EditWFEdge.run_edge_WF. Qed.
+
+(* ---- undo / redo: the history mechanism this property quantifies over (Tracks.undo / redo,
+        ActionHistory) is, in the model, the code translated on every run from the current
+        actions/action_history.py (Gen/History_gen.v); C02_timeline states what it guarantees ---- *)
+Theorem C04_history_is_generated : forall st a dA,
+  (let h := fst (FT.Gen.History_gen.add_new_action state action (FT.Proofs.HistoryGen.to_hist st) a st) in
+   undo_stack (hist_add st a) = FT.Gen.History_gen.undo_stack _ _ h /\ redo_stack (hist_add st a) = FT.Gen.History_gen.redo_stack _ _ h) /\
+  (let gr := FT.Gen.History_gen.undo state action FT.Proofs.HistoryGen.inv_total dA (FT.Proofs.HistoryGen.to_hist st) in
+   match undo st with
+   | Ok b s' => snd gr = b /\ undo_stack s' = FT.Gen.History_gen.undo_stack _ _ (fst gr) /\ redo_stack s' = FT.Gen.History_gen.redo_stack _ _ (fst gr)
+   | Err _ _ => True
+   end).
+Proof. exact FT.Props.C02.C02_edit_machine_uses_generated. Qed.
+
 Example C04_ex4_hypotheses :
   W_dict ex4 /\ W_forest ex4 /\ W_trk ex4 /\ W_book ex4 /\ trk_bounded ex4 /\ trk_act (ft ex4) = true.
 Proof. exact (conj ex4_W_dict (conj ex4_W_forest (conj ex4_W_trk (conj ex4_W_book (conj ex4_trk_bounded eq_refl))))). Qed.
@@ -184,3 +228,8 @@ Print Assumptions C04_step_add_edge_global.
 Print Assumptions C04_frame_delete_edge.
 Print Assumptions C04_frame_add_edge.
 Print Assumptions C04_step_swap.
+Print Assumptions C04_step_delete_node.
+Print Assumptions C04_frame_delete_node.
+Print Assumptions C04_step_add_node.
+Print Assumptions C04_run_edge_calls.
+Print Assumptions C04_history_is_generated.
